@@ -648,6 +648,10 @@ class Interp:
             return default
         if isinstance(v, SArr):
             raise AnalysisError(f"peval: ndarray.{name} is not modelled")
+        if isinstance(v, Obj) and v.cls is None and v.kind not in ("instance", "class", "desc", "value", "view", "buffer", "context"):
+            # an abstract stand-in written for one rule (numpy array, memoryview, storage, ...): the real object may well have
+            # this attribute -- a gap of the model, not an error of the analysed program
+            raise AnalysisError(f"peval: abstract {v.kind} `{v.name}` has no modelled attribute `{name}`")
         raise PyExc("AttributeError", f"{v!r} has no attribute {name}")
 
     def np_dtype(self, n):
@@ -730,6 +734,8 @@ class Interp:
             c, owner = self.find_in_class(f.cls, "__call__") if f.cls is not None else (None, None)
             if owner is not None:
                 return self.call(self._bind(c, f, f.cls), args, kwargs)
+            if f.cls is None and "__call__" in f.attrs:  # abstract (model) objects that are callable
+                return self.call(f.attrs["__call__"], args, kwargs)
         if isinstance(f, Opaque):
             return Opaque(f"{f.tag}()")
         if isinstance(f, type):
@@ -1252,6 +1258,8 @@ class Interp:
             gi = self.getattr(c, "__getitem__", default=None)
             if gi is not None:
                 return self.call(gi, [k], {})
+        if c is None or isinstance(c, (bool, int, float)):
+            raise PyExc("TypeError", f"'{type(c).__name__}' object is not subscriptable")
         raise AnalysisError(f"peval: subscript of {c!r} at `{norm(node)[:60] if node is not None else ''}`")
 
     def binop(self, op, a, b, node=None):
